@@ -72,6 +72,38 @@ Theorem C15_closed_drops_all : forall es, let u := run (es ++ [ServerClosed]) in
   (forall ev, snd (step u ev) = []).
 Proof. exact closed_drops_all. Qed.
 
+(* --- a caller passing an empty flag set: FALSE (finding F27) -----------------------------------------------------------
+   The worker takes every request with flag 0 for a retry-timer expiry: the call leaves the set of reasons unchanged but
+   AddUser is sent again.  (For calls with a non-empty flag set is_retry is false and C15_sends_mirror asks for nothing
+   unless the set changes between empty and non-empty.) *)
+Theorem C15_flag0_call_resends_refuted : exists es, spec_run (es ++ [Track 0]) = spec_run es /\ armed (run es) = None /\
+  att (run (es ++ [Track 0; WorkerStep])) = att (run es) ++ [SAdd].
+Proof. exists [Track 1; WorkerStep; WorkerStep; ServerReply RExists]. repeat split. Qed.
+
+(* --- the tie: decisions regenerated from _tracking_task (tr_tracking), hand-abstracted functions pinned ------------- *)
+(* the worker's decision list, regenerated from the if / elif structure of _tracking_task, in closed form; the machine's
+   [dequeue] and [exit_check] branch on [worker_decide] itself (Model.v), the proofs go through dequeue_eq / exit_check_eq *)
+Theorem C15_worker_decision_structure : forall prev new retry qe,
+  worker_decide prev new retry qe =
+    if Nat.eqb new 0 then
+      WCancelRetry :: (if negb (Nat.eqb prev 0) then [WRemoveUser; WSetUntracked] else []) ++ (if qe then [WExitDrop] else [])
+    else if Nat.eqb prev 0 || retry then [WAttempt] else [].
+Proof.
+  intros. unfold worker_decide. destruct (Nat.eqb new 0), (Nat.eqb prev 0), retry, qe; reflexivity.
+Qed.
+
+Theorem C15_flag_arithmetic : (forall fl f, apply_add fl f = Nat.lor fl f) /\ (forall fl f, apply_rem fl f = Nat.ldiff fl f) /\
+  (forall f, is_retry_req f = Nat.eqb f 0).
+Proof. repeat split. Qed.
+
+Theorem C15_abstracted_functions_pinned :
+  FP_track_user = 610696826989361241%N /\ FP_untrack_user = 917325595769543449%N /\
+  FP_get_tracked_user_object = 1131138843424282972%N /\ FP_on_tracking_task_done = 1054859441782013261%N /\
+  FP_on_state_changed = 754131906919650059%N /\ FP_stop = 170056146222749276%N /\
+  FP_request_untracking = 411430676722982849%N /\ FP_set_tracking_state = 959460761272375%N /\
+  FP_cancel_task = 834680327868759807%N.
+Proof. repeat split. Qed.
+
 (* --- non-vacuity ------------------------------------------------------------------------------------------ *)
 Example C15_nonvacuous :
   (let es := [Track 1; WorkerStep; WorkerStep; ServerReply RSilence] in
